@@ -85,29 +85,39 @@ def dualBound (rows : List (Row α)) (y : List α) (ub : Var → Option α) : Op
 /-- total of a supply series over the horizon -/
 def total (l : List α) (n : Nat) : α := (List.range n).foldl (fun acc m => acc + at' l m) 0
 
-/-- a simple bound valid for every feasible point of `buildLP i kind` under `WellFormed i`;
-    `none` for variables that can be unbounded (e.g. stored-food stock variables after month 12 in
-    the regimes without storage between years) -/
-def ubOf (i : Inp α) (kind : Kind) : Var → Option α
+/-- a simple bound valid for every feasible point of `buildLP i kind` under `WellFormed i`
+    (`Props/C02.lean: ubOf_valid`); `none` where no bound is proved:
+    * variables of a resource that is switched off (they occur in no row, only `0 ≤ x v` holds);
+    * months outside the horizon;
+    * stored-food stock variables with no `Stored_Food_Eaten` row behind them (without storage
+      between years: `Stored_Food_End_m` for `m > 12`, `Stored_Food_Start_m` for `m > 13`);
+    * meat stock variables without storage between years; seaweed harvest after month 0;
+      `Humans_Fed_Kcals`; the objective variables.
+    The bound does not depend on the kind of round. -/
+def ubOf (i : Inp α) (_kind : Kind) : Var → Option α
   | .objectiveBest => none
-  | .objective =>
-    (match kind with
-     | .toHumans => none      -- bounded through the rows `objective ≤ consumed m` (multipliers take care of it)
-     | .toAnimals => none)
+  | .objective => none      -- bounded through the objective rows (multipliers take care of it)
   | .mv k m =>
     if i.nmonths ≤ m then none else
     match k with
-    | .sfStart | .sfEnd => if i.storeBetweenYears || decide (m ≤ 12) then some i.storedInitial else none
-    | .sfFeed | .sfBiofuel => if i.storeBetweenYears || decide (m ≤ 12) then some i.storedInitial else some 0
-    | .sfHumans => if i.storeBetweenYears || decide (m ≤ 12) then some i.storedInitial else some 0
-    | .cropStorage | .cropConsumed | .cropFeed | .cropBiofuel | .cropHumans => some (total i.cropProd (m + 1))
-    | .meatStart | .meatEnd => if i.storeBetweenYears then some i.meatSummed else none
-    | .meatEaten => if i.storeBetweenYears then some i.meatSummed else some (at' i.slaughtered m)
-    | .scpHumans | .scpFeed | .scpBiofuel => some (at' i.scp m)
-    | .csHumans | .csFeed | .csBiofuel => some (at' i.cs m)
-    | .swWet => some (i.maxDensity * at' i.builtArea m)
-    | .usedArea => some (at' i.builtArea m)
-    | .swHumans | .swFeed | .swBiofuel => none
+    | .sfStart =>
+      if i.addStored && (i.storeBetweenYears || decide (m ≤ 13)) then some i.storedInitial else none
+    | .sfEnd =>
+      if i.addStored && (i.storeBetweenYears || decide (m ≤ 12)) then some i.storedInitial else none
+    | .sfHumans | .sfFeed | .sfBiofuel =>
+      if !i.addStored then none
+      else if i.storeBetweenYears || decide (m ≤ 12) then some i.storedInitial else some 0
+    | .cropStorage | .cropConsumed | .cropFeed | .cropBiofuel | .cropHumans =>
+      if i.addOutdoor then some (total i.cropProd (m + 1)) else none
+    | .meatStart | .meatEnd => if i.addMeat && i.storeBetweenYears then some i.meatSummed else none
+    | .meatEaten =>
+      if !i.addMeat then none
+      else if i.storeBetweenYears then some i.meatSummed else some (at' i.slaughtered m)
+    | .scpHumans | .scpFeed | .scpBiofuel => if i.addScp then some (at' i.scp m) else none
+    | .csHumans | .csFeed | .csBiofuel => if i.addCs then some (at' i.cs m) else none
+    | .swWet => if i.addSeaweed then some (i.maxDensity * at' i.builtArea m) else none
+    | .usedArea => if i.addSeaweed then some (at' i.builtArea m) else none
+    | .swHumans | .swFeed | .swBiofuel => if i.addSeaweed && decide (m = 0) then some 0 else none
     | .consumedKcals => none
 
 /-- what `ubOf` needs of the inputs: wastes in `[0, 100)` (so that people never receive more than
